@@ -539,6 +539,7 @@ func runC12(c *core.Ctx) {
 			continue
 		}
 		found := false
+		var late *ssa.Call
 		for _, b := range fn.Blocks {
 			for _, in := range b.Instrs {
 				call, ok := in.(*ssa.Call)
@@ -579,12 +580,68 @@ func runC12(c *core.Ctx) {
 					}
 					if all {
 						found = true
+						// ... and before anything of the same clause is linted: the directive in front of `else if`
+						// covers (or stops covering) the clause's condition too
+						if len(cs.path) == 2 {
+							// the clause the comments belong to: the value at the root of the field chain (a.Meta.Leading -> a)
+							rootOf := func(fa *ssa.FieldAddr) ssa.Value {
+								var v ssa.Value = fa
+								for i := 0; i < 8; i++ {
+									switch t := v.(type) {
+									case *ssa.FieldAddr:
+										v = t.X
+										continue
+									case *ssa.UnOp:
+										if inner, isFA := t.X.(*ssa.FieldAddr); isFA {
+											if f := core.FieldOf(inner); f != nil && f.Name() == cs.path[0] {
+												return t // the clause itself: stmt.Alternative
+											}
+											v = t.X
+											continue
+										}
+									}
+									break
+								}
+								return v
+							}
+							var elem ssa.Value
+							for x := range core.BackSliceLocal(a) {
+								if fa, isFA := x.(*ssa.FieldAddr); isFA && core.FieldOf(fa) != nil && core.FieldOf(fa).Name() == "Leading" {
+									elem = rootOf(fa)
+								}
+							}
+							for _, b2 := range fn.Blocks {
+								for _, i2 := range b2.Instrs {
+									c2, isCall := i2.(*ssa.Call)
+									if !isCall || c2 == call || elem == nil {
+										continue
+									}
+									cal2 := c2.Common().StaticCallee()
+									if cal2 == nil || cal2.Signature.Recv() == nil || core.NamedTypeName(derefType(cal2.Signature.Recv().Type())) != "Linter" || !strings.HasPrefix(cal2.Name(), "lint") {
+										continue
+									}
+									same := false
+									for _, a2 := range c2.Common().Args[1:] {
+										for x := range core.BackSliceLocal(a2) {
+											if fa, isFA := x.(*ssa.FieldAddr); isFA && rootOf(fa) == elem && core.FieldOf(fa) != nil && core.FieldOf(fa).Name() != "Leading" {
+												same = true
+											}
+										}
+									}
+									if same && !core.InstrDominates(call, c2) {
+										late = c2
+									}
+								}
+							}
+						}
 					}
 				}
 			}
 		}
 		key := cs.fn + "|" + strings.Join(cs.path, ".")
-		if found {
+		if found && late != nil {
+			c.Report("ignore.clauses", key+"|order", late.Pos(), fmt.Sprintf("%s lints a part of the clause (%s) before the comments in front of %s have been handed to the ignore state: a `falco-ignore-end` there still hides the diagnostics of the clause's condition, a `falco-ignore-start` does not cover them yet", cs.fn, late.Common().StaticCallee().Name(), cs.label))
+		} else if found {
 			c.Discharge("ignore.clauses", key, fn.Pos(), "the comments in front of "+cs.label+" are handed to an ignore method that closes the range on falco-ignore-end")
 		} else {
 			c.Report("ignore.clauses", key, fn.Pos(), fmt.Sprintf("%s never hands the comments in front of %s (%s) to the ignore state: a `falco-ignore-end` written there does not close its range, which then hides every later diagnostic of the file", cs.fn, cs.label, strings.Join(cs.path, ".")))
